@@ -49,6 +49,14 @@ pub fn spans_consistent(rd: &Rendered, sp: &Sp) -> bool {
         && tags.len() == rd.elems.len() * 2
 }
 
+/// Relaxed form for documents derived through the admission gate (stray tags may exist): every
+/// recorded open / close span is a tag span of the reference scan.
+pub fn spans_subset(rd: &Rendered, sp: &Sp) -> bool {
+    let spans = refmodel::rscan(&rd.text, &sp.ds, &sp.de);
+    let tags: std::collections::HashSet<(usize, usize)> = spans.iter().filter(|s| s.2).map(|s| (s.0, s.1)).collect();
+    rd.elems.iter().all(|e| tags.contains(&e.open) && tags.contains(&e.close))
+}
+
 pub struct DocReport {
     pub out: Result<String, PanicInfo>,
     pub events: Vec<Event>,
